@@ -36,6 +36,7 @@ def parseStep (j : Json) : Except String Step := do
   | "init" => pure (.env .init k i)
   | "vanish" => pure (.env .vanish k i)
   | "vanishStale" => pure (.env .vanishStale k i)
+  | "candGone" => pure (.candGone ((← natO j "cand").getD 0))
   | "sync" => pure .sync
   | "restart" => pure .restart
   | "cleanup" => pure .cleanup
@@ -81,7 +82,7 @@ def sortEvs (l : List DelEvent) : List DelEvent := l.foldl (fun acc e => insertE
 
 def candJson (c : Cand) : Json :=
   jObj [("taint", jBool c.taint), ("cond", jBool c.cond), ("deleting", jBool c.deleting), ("mark", jBool (markObs c)),
-        ("owner", match c.owner with | none => jInt (-1) | some k => jNat k)]
+        ("owner", match c.owner with | none => jInt (-1) | some k => jNat k), ("gone", jBool c.gone)]
 
 def replJson (r : Repl) : Json :=
   jObj [("named", jBool r.named), ("latched", jBool r.latched), ("api", jStr (apiStr r.api)),
@@ -130,7 +131,8 @@ def parseObs (cmds : List (List Nat × Nat)) (s : Step) (j : Json) : Except Stri
   let cands ← (← arrF j "cands").mapM (fun c => do
     let ow ← intF c "owner"
     pure ({ taint := ← boolF c "taint", cond := ← boolF c "cond", deleting := ← boolF c "deleting",
-            mark := ← boolF c "mark", owner := if ow < 0 then none else some ow.toNat } : ObsCand))
+            mark := ← boolF c "mark", owner := if ow < 0 then none else some ow.toNat,
+            gone := ← boolD c "gone" false } : ObsCand))
   let latched ← (← arrF j "cmds").mapM (fun c => do
     (← arrF c "repls").mapM (fun r => boolF r "latched"))
   pure ({ kind := kind, verdict := verdict, faults := ← natF j "nf", deletes := deletes, cands := cands }, latched)
